@@ -7,6 +7,8 @@
      "import"  from m import y  -> the definition named y in m (possibly again an import: re-export)
      "call"    x = f()          -> the single return expression of f
      "class"   class C(B)       -> its base B (attribute tables are merged over the bases)
+     "star"    from m import *; x = y  -> building the name table of the module needs the name table of m (a module that
+               is reached again while its own table is under construction offers its own names only)
    EvalCtx.evaluate keeps the set `busy` of nodes in progress and answers None for a node met again (evaluator.py:
    `if node is None or node in self.nodes: return None`); EvalCtx.declarations (go-to-definition) follows import edges
    recursively.  Guarded = TRUE models the guard (as evaluate does, and declarations since its repair); Guarded = FALSE models
@@ -19,7 +21,7 @@ EXTENDS Naturals, Sequences, FiniteSets, TLC, Json
 
 CONSTANTS N, Guarded
 Nodes == 1..N
-EdgeKinds == {"const", "assign", "import", "call", "class"}
+EdgeKinds == {"const", "assign", "import", "call", "class", "star"}
 Graphs == [kind : [Nodes -> EdgeKinds], succ : [Nodes -> Nodes]]
 
 VARIABLES g, stack, busy, done
